@@ -36,7 +36,19 @@ func fn(p *core.Program, name string) *ast.FuncDecl { return p.FuncDecl(core.Con
 
 func isMethodNamed(info *types.Info, call *ast.CallExpr, name string) bool {
 	f := astx.CalleeFunc(info, call)
-	return f != nil && f.Name() == name
+	if f == nil {
+		return false
+	}
+	if f.Name() == name {
+		return true
+	}
+	// a function that took the place of a vanished method of that name (core: method→function stand-in)
+	if p := core.Current; p != nil {
+		if fd := p.Decl(f); fd != nil && strings.HasSuffix(p.StoodInFor(fd), "."+name) {
+			return true
+		}
+	}
+	return false
 }
 
 func negotiate(c *core.Ctx) {
